@@ -760,7 +760,11 @@ class TimeoutHandler(PoolThread):
                 dirty = set(k for k in dirty if k in cache)
 
             for i, job in cache.items():
-                ack_time = job._time_accepted
+                ack_time = getattr(job, '_time_accepted', None)
+                if not isinstance(ack_time, (int, float)):
+                    # not accepted yet, or a map / imap handle (no single
+                    # acceptance time, no limits of its own): nothing to time.
+                    continue
                 soft_timeout = job._soft_timeout
                 if soft_timeout is None:
                     soft_timeout = t_soft
